@@ -1,6 +1,7 @@
 package c14
 
 import (
+	"encoding/json"
 	"fmt"
 	"os"
 	"strconv"
@@ -8,6 +9,7 @@ import (
 	"testing"
 
 	"github.com/nspcc-dev/neo-go/pkg/compiler"
+	"github.com/nspcc-dev/neo-go/pkg/smartcontract/scparser"
 
 	"pgregory.net/rapid"
 )
@@ -58,6 +60,31 @@ func TestOne(t *testing.T) {
 			ioff = int(m.Range.Start)
 		}
 	}
+	if os.Getenv("C14_DIS") != "" {
+		ctx := scparser.NewContext(nf.Script, 0)
+		for ctx.NextIP() < len(nf.Script) {
+			op, par, _ := ctx.Next()
+			fmt.Printf("%4d %s %x\n", ctx.IP(), op, par)
+		}
+	}
 	r := runVM(nf.Script, off, ioff, args, "int")
 	fmt.Printf("VM: fault=%q depth=%d val=%s type=%s\n", r.fault, r.depth, r.val, r.typ)
+}
+
+// TestSrc prints the sources of a saved case (C14_CASE=<replay file>).
+func TestSrc(t *testing.T) {
+	f := os.Getenv("C14_CASE")
+	if f == "" {
+		t.Skip("C14_CASE not set")
+	}
+	b, _ := os.ReadFile(f)
+	var env struct {
+		Case Case `json:"case"`
+	}
+	if err := json.Unmarshal(b, &env); err != nil {
+		t.Fatal(err)
+	}
+	for i := range env.Case.Progs {
+		fmt.Printf("// ===== program %d\n%s\n", i, env.Case.Progs[i].Source(pkgName(i)))
+	}
 }
